@@ -1812,6 +1812,20 @@ def r_noshift(f):
             p = st["rv"]["o"]["p"]
             if p["local"] == 2 and len(p["proj"]) == 1 and p["proj"][0]["k"] == "field":
                 comp[p["proj"][0]["i"]] = st["p"]["local"]
+    # .. or normalised by a crate helper first: `let col_mid = wrap_component(mid.0, num_cols)` - the working local is the helper's
+    # result, provided the helper can only answer with its first argument or with 0
+    dn0 = Dfx(b)
+    for bi_, t_, fn_ in b.calls():
+        hb_ = f.crate_fn_for_call(fn_) if fn_ else None
+        if hb_ is None or hb_.kind == "Closure" or not t_["args"] or not t_.get("dest") or t_["dest"]["proj"] or str(hb_.locals[0]) != "usize":
+            continue
+        a0_ = strip(dn0.expr(t_["args"][0]))
+        if not (a0_[0] == "field" and strip(a0_[1]) == ("param", 2) and a0_[2] in (0, 1)):
+            continue
+        hd_ = Dfx(hb_)
+        rets_ = [strip(hd_.rvalue(st["rv"])) for _, _, st in hb_.stmts() if st["k"] == "assign" and st["p"]["local"] == 0 and not st["p"]["proj"]]
+        if rets_ and all(r_ == ("param", 1) or const_usize(r_) == 0 for r_ in rets_) and not any(True for _ in hb_.calls()):
+            comp[a0_[2]] = t_["dest"]["local"]
     if set(comp) != {0, 1}:
         R.inconc(b.ident, "the components of `mid` are not copied into working locals (written differently)")
         return R, 0
